@@ -652,3 +652,44 @@ def m_clamp(eng, m, args, dest_ts, st, where):
     lt = (lambda a, b: a < b) if t.signed else z3.ULT
     eng.panic('assert', where + ': clamp requires min <= max', AND(st.pc, lt(hi, lo)))
     return Sc(z3.If(lt(x, lo), lo, z3.If(lt(hi, x), hi, x)))
+
+
+@model('slice sort', r'^(?:std|core)::slice::<impl \[(.+)\]>::(sort|sort_unstable|sort_by|sort_unstable_by|sort_by_key|sort_unstable_by_key|sort_by_cached_key)(?:::<(.*)>)?$')
+def m_sort(eng, m, args, dest_ts, st, where):
+    """sorting as a fixed network of adjacent compare-and-swap steps (bubble sort, stable): the result is a sorted permutation of the
+    first `len` slots, which is what every std sort guarantees; for the unstable variants one admissible order of ties is modelled"""
+    r = args[0]
+    if not isinstance(r, Ref):
+        raise Unsupported('sort on a non-reference')
+    v = eng.read_ref(st, r)
+    k = m.group(2)
+    ets = m.group(1)
+    slots = list(v.slots)
+    n = v.n
+    key_ts = split_top(m.group(3))[0] if (m.group(3) and 'key' in k) else None
+    keys = None
+    if key_ts is not None:
+        keys = [None] * n
+        for i in range(n):
+            if slots[i] is not None:
+                keys[i] = eng.call_callable(args[1], [slots[i]], _sub_state(st, AND(st.pc, z3.UGT(v.len, i))), where)
+    for p in range(n):
+        for j in range(n - 1 - p):
+            if slots[j] is None or slots[j + 1] is None:
+                continue
+            both = z3.UGT(v.len, j + 1)
+            st2 = _sub_state(st, AND(st.pc, both))
+            if k in ('sort', 'sort_unstable'):
+                c = generic_cmp2(eng, ets, slots[j], slots[j + 1], st2, where)
+            elif key_ts is not None:
+                c = generic_cmp2(eng, key_ts, keys[j], keys[j + 1], st2, where)
+            else:
+                c = eng.call_callable(args[1], [slots[j], slots[j + 1]], st2, where)
+            swap = AND(both, is_ord(c, 'Greater'))
+            a, b = slots[j], slots[j + 1]
+            slots[j], slots[j + 1] = ite(swap, b, a), ite(swap, a, b)
+            if keys is not None:
+                ka, kb = keys[j], keys[j + 1]
+                keys[j], keys[j + 1] = ite(swap, kb, ka), ite(swap, ka, kb)
+    eng.write_ref(st, r, lambda old: Vc(v.ty, v.len, slots, v.n))
+    return UNITV
